@@ -546,6 +546,16 @@ theorem StarRun.chars {e : Expr} {p : Char → Bool} {k : Nat} (hm : CharMatcher
     refine .step (t := .text [c]) (mid := cs ++ rest) (fun F hF => ?_) (ih rest (fun x hx => hall x (by simp [hx])) hstop)
     rw [List.cons_append, (hm F hF).1 c (cs ++ rest), hall c (by simp)]; simp
 
+theorem SeqRun.nil {k inp} : SeqRun g k [] inp [] inp := ⟨rfl, rfl⟩
+theorem SeqRun.cons {k e es inp t mid ts rest} (h1 : ParsesTo g e inp t mid k) (h2 : SeqRun g k es mid ts rest) :
+    SeqRun g k (e :: es) inp (t :: ts) rest := ⟨t, mid, ts, rfl, h1, h2⟩
+theorem SeqFail.head {k e es inp} (h : FailsOn g e inp k) : SeqFail g k (e :: es) inp := Or.inl h
+theorem SeqFail.tail {k e es inp t mid} (h1 : ParsesTo g e inp t mid k) (h2 : SeqFail g k es mid) : SeqFail g k (e :: es) inp :=
+  Or.inr ⟨t, mid, h1, h2⟩
+theorem ChoiceRun.head {k e es inp t rest} (h : ParsesTo g e inp t rest k) : ChoiceRun g k (e :: es) inp t rest := Or.inl h
+theorem ChoiceRun.tail {k e es inp t rest} (h1 : FailsOn g e inp k) (h2 : ChoiceRun g k es inp t rest) :
+    ChoiceRun g k (e :: es) inp t rest := Or.inr ⟨h1, h2⟩
+
 end comb
 
 end FV.Peg
